@@ -275,6 +275,31 @@ def main() -> int:
             if code == 1:
                 extras["bounded_monitor"]["violations"] = extras["bounded_monitor"].get("violations", 0) + 1
         extras["assumed_contract_monitor"] = driver.assumed_contract_monitor()
+    # sensitivity canaries (thorough tier): independently seeded property-breaking changes of this property (seeded/<id>*/) are
+    # applied to scratch copies of the current tree and the quick check is run on them; a canary that comes back "held"
+    # (exit 0) means the machinery has lost its teeth => exit 3, nothing this run reports can be believed
+    if tier == "thorough" and not SCRATCH and os.environ.get("VERIF_NO_CANARIES") != "1":
+        import glob
+        import shutil
+        import tempfile
+
+        extras["canaries"] = []
+        names = sorted(os.path.basename(d) for d in glob.glob(os.path.join(HERE, "seeded", prop + "*")) if os.path.exists(os.path.join(d, "meta.json")))
+        k = seed % max(len(names), 1)
+        for name in (names[k:] + names[:k])[:2]:
+            tmp = tempfile.mkdtemp(prefix="canary_")
+            try:
+                shutil.copytree(os.path.join(os.environ.get("VERIF_REPO", "/repo"), "src"), os.path.join(tmp, "repo", "src"))
+                code, out = sh(f"cd {tmp}/repo && git init -q . && git apply {HERE}/seeded/{name}/patch.diff", timeout=60)
+                if code != 0:
+                    extras["canaries"].append({"seed": name, "result": "patch does not apply to the current tree"})
+                    continue
+                env = dict(os.environ)
+                env.update({"VERIF_REPO": os.path.join(tmp, "repo"), "VERIF_OUT_TAG": "canary-" + name, "VERIF_TIER": "quick"})
+                code, out = sh(f"{sys.executable} {os.path.join(HERE, 'check.py')} {prop} --tier quick", timeout=1800, env=env)
+                extras["canaries"].append({"seed": name, "exit": code, "detected": code == 1, "last_line": out.strip().splitlines()[-1][:200] if out.strip() else ""})
+            finally:
+                shutil.rmtree(tmp, ignore_errors=True)
     # a failing native history found by the bounded monitor of the thorough tier is a real violation even when every
     # obligation was discharged (it would mean that an assumption of the proof does not hold for the code as it runs)
     bm = extras.get("bounded_monitor") or {}
@@ -347,6 +372,7 @@ def main() -> int:
             "bounded_fallback": bounded_fallback,
             "bounded_parts": extras.get("bounded_monitor", {"note": "the bounded monitor runs in the thorough tier only; it is never counted towards `discharged`"}),
             "known_finding_replays": extras.get("known_finding_replays", []),
+            "canaries": extras.get("canaries", {"note": "thorough tier only: seeded property-breaking changes must be detected"}),
             "cross_check_other_solvers": extras.get("cross_check", {"note": "thorough tier only"}),
             "assumed_contract_monitor": extras.get("assumed_contract_monitor", {"note": "thorough tier only: the assumed Semaphore/Task/gather/Queue contracts are cross-checked against the real interpreter on bounded histories"}),
         },
@@ -360,6 +386,10 @@ def main() -> int:
           f"{len(still_unknown)} undecided, {len(units)} units, {wall}s")
     if violations:
         return 1
+    missed_canaries = [c["seed"] for c in extras.get("canaries", []) if isinstance(c, dict) and c.get("exit") == 0]
+    if missed_canaries:
+        print("CANARY-MISSED:", missed_canaries, "- seeded property-breaking changes are no longer detected")
+        return 3
     if crashed or extras.get("cross_check", {}).get("disagreements") or extras.get("assumed_contract_monitor", {}).get("refuted"):
         if extras.get("assumed_contract_monitor", {}).get("refuted"):
             print("ASSUMED-CONTRACT-REFUTED:", extras["assumed_contract_monitor"]["refuted"])
